@@ -20,6 +20,9 @@ def apply(d, f, old, new, nth=None):
 
 def main(a):
     sel = [v for v in variants.V if not a or any(x in v["name"] for x in a)]
+    if os.environ.get("SHARD"):           # SHARD=i/n: every n-th selected variant, starting at i (parallel runs)
+        i_, n_ = (int(x) for x in os.environ["SHARD"].split("/"))
+        sel = sel[i_::n_]
     rep = []
     for v in sel:
         t0 = time.time()
